@@ -1,5 +1,6 @@
 import Jrpc.Oracle.Util
 import Jrpc.Model.Wire
+import Jrpc.Proofs.RoundTrip
 /-! Oracle for C13: `c13e <batchflag 0|1> <msg>…` where
 msg ::= `<idhex|-> <methodhex|-> <paramshex|-> <resulthex|-> <errcode|-> <errmsghex|-> <errdatahex|->`
 → hex of the bytes `jmessages.toJSON` produces. `-` = absent/empty. -/
@@ -43,6 +44,16 @@ def handleParams (toks : List String) : String :=
       | .leaveOut => "omit"
       | .keep _ => "keep"
       | .refuse => "refuse"
+    | none => "bad-op"
+  | _ => "bad-op"
+
+/-- `c13b <hex>` → `1` iff the text meets the hypothesis `partB` of `emit_parse_roundtrip`
+(one trimmed JSON value, nesting below the scanner's limit) -/
+def handlePart (toks : List String) : String :=
+  match toks with
+  | [h] =>
+    match bytesOfHex h with
+    | some b => if partB b then "1" else "0"
     | none => "bad-op"
   | _ => "bad-op"
 
